@@ -162,7 +162,7 @@ func (v *Validator) ValidateMap(claims ClaimsMap) error {
 }
 
 func toTime(u uint64) time.Time {
-	if u >= math.MaxInt64 {
+	if u > math.MaxInt64-62135596800 { // time.Unix would overflow
 		return time.Time{}
 	}
 
